@@ -20,6 +20,7 @@ func init() {
 			"PV-ROLE limit plumbing: the limit the engine applies is the one the caller gave",
 			"PF-IDX constant indices into daemon-filled slices are guarded by a length test (a nameless container does not end the query)",
 			"UnparenExpr unwraps every level; SetAttrs visits every attribute",
+			"every record carries its own container's resource",
 		},
 		NotDecided: []string{"the empty key (maps to the empty name; recorded as an assumption)", "collisions of two Docker keys that sanitise to the same name", "that the representatives cover every rune: they cover both sides of every comparison constant in the ASCII range and letters/digits/symbols outside it"},
 		Rules: func(r *Run) {
@@ -42,6 +43,7 @@ func init() {
 			ruleConstIndexGuarded(r, []string{dockerlogPkg}, 2)
 			ruleParens(r)
 			ruleSetAttrsWhole(r)
+			ruleRecordOrigin(r)
 		},
 	})
 }
